@@ -38,10 +38,12 @@ def matrix_lifecycle_part(ev, fnd, unknown, tier):
     plan = [("lifecycle_matrix_z3", "MC_MatrixLifecycle_z3.cfg", 0, 3, 2, None),
             ("lifecycle_matrix_z2_vine", "MC_MatrixLifecycle_z2v.cfg", 1, 2, 2, None)]
     if tier == "thorough":   # larger bounds, outgoing transitions of every state sampled
-        plan += [("lifecycle_matrix_z3_3slots", "MC_MatrixLifecycle_z3_s3.cfg", 0, 3, 3, 6),
-                 ("lifecycle_matrix_z2_vine_3vertices", "MC_MatrixLifecycle_z2v_t.cfg", 1, 2, 2, 8)]
+        # (108 591 and 27 937 states with the provenance and `rem` ghosts: one / two outgoing transitions per state on three
+        # column types; the two small graphs are replayed in full on every column type)
+        plan += [("lifecycle_matrix_z3_3slots", "MC_MatrixLifecycle_z3_s3.cfg", 0, 3, 3, 1),
+                 ("lifecycle_matrix_z2_vine_3vertices", "MC_MatrixLifecycle_z2v_t.cfg", 1, 2, 2, 2)]
     for part, cfg, z2, p, nslots, per_state in plan:
-        r = vf.tlc("MC_MatrixLifecycle", cfg, workers=1, timeout=1100)
+        r = vf.tlc("MC_MatrixLifecycle", cfg, workers=1, timeout=1500)
         if r.violation:
             unknown.append({"kind": "model", "tlc": r.violation})
             continue
@@ -53,9 +55,11 @@ def matrix_lifecycle_part(ev, fnd, unknown, tier):
         env = dict(ASAN_ENV)
         env.update({"VF_SLOTS": str(nslots), "VF_P": str(p)})
         mine = [b for b, j in zip(bins, jobs) if ("VF_Z2=%d" % z2) in j["defines"]]
+        if per_state is not None:
+            mine = mine[:3]
         del vf.last_notes[:]
-        summ, devs, crashes, nb = vf.replay(g, mine, work, env=env, shards=8 if tier == "quick" else 5, rnd=random.Random(vf.seed()),
-                                            walks=100 if tier == "quick" else 400, walk_len=24, timeout=3000,
+        summ, devs, crashes, nb = vf.replay(g, mine, work, env=env, shards=8, rnd=random.Random(vf.seed()),
+                                            walks=100 if tier == "quick" else 150, walk_len=24, timeout=3000,
                                             max_edges_per_state=per_state)
         beh = sum(s["behaviours"] for s in summ.values())
         ev.parts[part]["replay"] = {"behaviours_in_cover": nb, "configs": len(summ), "behaviours": beh,
